@@ -3,9 +3,10 @@
    of numbers the tie parses:
      [ code; version; eof; #extents; (start; end; kind)*; #tags; tag code*; #objects; object* ]
      code   = 1 (tolerant walk accepts) + 2 (strict walk accepts) + 4 (walk_ok: accepted and extents_ok)
+              + 8 (accepted, and the extents are in bounds and pairwise disjoint when the end-of-file address is left out)
      object = addr; kind; datatype class; datatype size; layout; #dims; dim*; |path|; path bytes; #attrs; (|name|; name bytes)*
    and [ code ] alone when the tolerant walk rejects. *)
-From HV Require Import Base.Prelude Base.Outcome Base.Bytes Spec.Parse Spec.Walk.
+From HV Require Import Base.Prelude Base.Outcome Base.Bytes Spec.Parse Spec.Walk Model.Wellformed.
 
 Definition enc_bytes (b : bytes) : list N := blen b :: b.
 Definition enc_obj (o : obj_sum) : list N :=
@@ -18,7 +19,7 @@ Definition walk_obs (fuel : nat) (f : bytes) : list N :=
   let wok := if walk_ok fuel f then 4 else 0 in
   match walk wtolerant fuel f with
   | Ok r =>
-      (1 + strict_ok + wok) :: wr_version r :: wr_eof r ::
+      (1 + strict_ok + wok + (if extents_ok (blen f) (blen f) (plain (wr_extents r)) then 8 else 0)) :: wr_version r :: wr_eof r ::
       lenN (wr_extents r) :: concat (map enc_ext (wr_extents r)) ++
       lenN (wr_tags r) :: map wtag_code (wr_tags r) ++
       lenN (wr_tree r) :: concat (map enc_obj (wr_tree r))
